@@ -88,7 +88,7 @@ fn underlying_md(b: &Built, p: &str) -> Option<(String, Result<VfsMetadata, Stri
             let up = format!("{}{}", base, p);
             Some((format!("underlying {}", up), md(&at(&child.root, &up))))
         }
-        Cfg::Ovl(_) => {
+        Cfg::Ovl(_) | Cfg::OvlShared(..) => {
             for (_, view, _) in b.layer_views(0) {
                 let lp = at(&view, p);
                 if lp.exists().unwrap_or(false) {
